@@ -139,6 +139,11 @@ def build():
     a(("h3-in-cell-p", "{|\n| <h3>S</h3><p>para</p>\n|}\n"))
     a(("region-list-div", '<div id="region_list">\n{|\n| a || b\n|-\n| c || d\n|}\n</div>\n'))
     a(("region-list-div-2", '<div id="region_list">\n{|\n| a\n|}\n{|\n| b\n|}\n</div>\n'))
+    # span numbers far beyond any table (browsers clamp colspan to 1000): the passes that lay a table out by columns must not
+    # do work proportional to the number
+    a(("colspan-huge-wide", ("intro " * 100) + "\n\n{|\n|-\n| colspan=\"300000000\" | a\n| b\n|-\n| " + "word " * 1200 + "\n| d\n|}\n"))
+    a(("colspan-huge", "{|\n|-\n| colspan=99999999 | a || b\n|-\n| c || d\n|}\n"))
+    a(("rowspan-huge", "{|\n|-\n| rowspan=99999999 | a || b\n|-\n| c || d\n|}\n"))
     return T
 
 
